@@ -209,8 +209,17 @@ _counter = [0]
 
 
 def run_tlc(module, cfg=None, env=None, workers=None, timeout=600, extra=(), simulate=None, depth=None,
-            seed_=None, coverage=False, cwd=SPEC, dfs=False, cont=False, java_opts=()):
+            seed_=None, coverage=False, cwd=SPEC, dfs=False, cont=False, java_opts=(), _retry=True):
     """Run TLC on spec/<module>.tla with spec/<cfg>; returns TlcResult."""
+    res = _run_tlc(module, cfg, env, workers, timeout, extra, simulate, depth, seed_, coverage, cwd, dfs, cont, java_opts)
+    if _retry and not res.ok and not res.violated and not res.timed_out and 'Error:' not in res.out and 'error' not in res.out.lower():
+        # the JVM ended without a verdict and without an error message (seen once under heavy parallel load): run it again
+        sys.stderr.write('note: TLC gave no verdict for %s (rc=%s); running it once more\n%s\n' % (module, res.rc, res.out[-1500:]))
+        res = _run_tlc(module, cfg, env, workers, timeout, extra, simulate, depth, seed_, coverage, cwd, dfs, cont, java_opts)
+    return res
+
+
+def _run_tlc(module, cfg, env, workers, timeout, extra, simulate, depth, seed_, coverage, cwd, dfs, cont, java_opts):
     _counter[0] += 1
     meta = mkdir(os.path.join(BUILD, "tlc", "%s-%d-%d" % (module, os.getpid(), _counter[0])))
     cmd = ["tlc", "-metadir", meta, "-noGenerateSpecTE", "-workers", str(workers or NCPU)]
